@@ -40,7 +40,8 @@ LEVEL_TEXT = ("Every member of the three finite families is executed on the impl
               "the file text denotes; the placement rule is compared pixel by pixel with a 10-line reference for all "
               "30 976 (input shape, detector shape, offset) combinations and all 1 280 keyword combinations; all "
               "histories up to depth 4 (thorough: 5) over 9-10 operations are replayed in a fresh directory and every load is "
-              "compared with the content of the most recent write.")
+              "compared with the content of the most recent write."
+              " The readers pyxel.inputs.load_image_v2 / load_table_v2 are part of the format round trips.")
 LEVEL_NOTE = ("Bounded: shapes <= 4x4, offsets in -5..5, value palette of 5 text kinds and 6 binary dtypes, histories of "
               "depth <= 4 on one path (plus a fixed second file for the observation). Trusted: numpy.save, "
               "astropy.io.fits.writeto and Python text writing produce the file the oracle describes; os.replace is "
